@@ -196,8 +196,9 @@ def r345_body(ctx):
             for x in walk(p.conds[-1][0]):
                 if x[0] == "call" and callee(x) == "numpy.allclose":
                     fr = x[2][0]
-                    okr = fr[0] in ("list", "tuple") and len(fr[1]) == 2 and all(e[0] == "call" and e[1][0] == "attr" and e[1][1] == ("param", "field") for e in fr[1]) and [e[1][2] for e in fr[1]] == ["min", "max"]
-                    ctx.check("R4", qn + "|range-is-(min, max)", True if okr else (False if fr[0] in ("list", "tuple") and [e[1][2] for e in fr[1] if e[0] == "call" and e[1][0] == "attr"] == ["max", "min"] else None),
+                    mms = [Q.minmax_of(e) for e in fr[1]] if fr[0] in ("list", "tuple") else []
+                    okr = mms == [("min", ("param", "field")), ("max", ("param", "field"))]
+                    ctx.check("R4", qn + "|range-is-(min, max)", True if okr else (False if mms == [("max", ("param", "field")), ("min", ("param", "field"))] else None),
                               "the body range compared with the header is [field.min(), field.max()]", bad="the body range is assembled as (max, min)", fn=qn)
 
 
